@@ -18,7 +18,7 @@ import json, os, re, time, collections
 import vlib, valueslib as vl
 from vlib import Inconclusive, log
 
-CHECKS = ["C13_Config", "C13_Effective", "C13_Rollback", "C13_Stored"]
+CHECKS = ["C13_Config", "C13_Effective", "C13_Rollback", "C13_NullUniform", "C13_Stored"]
 KF_L18 = "KF-L18-reuse-values-null-dropped"
 DRIVERS = ["secret", "configmap", "memory"]
 
